@@ -30,7 +30,7 @@ QUICK_EXH = {
     "C06": [("Exh_PL_reader", 6), ("Exh_PP_reader", 4), ("Exh_PA_reader", 2), ("Exh_L2_reader", 2)],
     "C07": [("Exh_2x2_core", 6), ("Exh_PP_reader", 4), ("Exh_PA_reader", 2), ("Exh_L2_reader", 2)],
 }
-THOR_EXH = [("Exh_2x2_core", 4), ("Exh_PL_reader", 4), ("Exh_PLA", 8), ("Thor_2x2_reader", 6), ("Thor_PLA_reader", 6), ("Thor_PPP", 4), ("Thor_PL2_reader", 6)]
+THOR_EXH = [("Exh_2x2_core", 4), ("Exh_PL_reader", 4), ("Exh_PLA", 8), ("Thor_PPP", 8)]
 BUGS = {
     "C06": {"Bug_PublishEarly": ["PublishedImpliesApplied", "ReadAtomic"],
             "Bug_DequeueUnapplied": ["PublishedImpliesApplied", "ReadAtomic"],
@@ -433,12 +433,14 @@ def plans_for(tier, rich=False):
                dict(VERIF_ROUNDS=5, VERIF_YIELD=20, VERIF_PIPEYIELD=25),
                dict(VERIF_ROUNDS=3, VERIF_YIELD=0, VERIF_PIPEYIELD=0, VERIF_COMMITTERS=8, VERIF_READERS=4, VERIF_K=16)]
     else:
-        var = [dict(VERIF_ROUNDS=40, VERIF_YIELD=30, VERIF_PIPEYIELD=0),
-               dict(VERIF_ROUNDS=40, VERIF_YIELD=20, VERIF_PIPEYIELD=25),
-               dict(VERIF_ROUNDS=30, VERIF_YIELD=50, VERIF_PIPEYIELD=60, VERIF_PROCS=2),
-               dict(VERIF_ROUNDS=30, VERIF_YIELD=0, VERIF_PIPEYIELD=0, VERIF_COMMITTERS=8, VERIF_READERS=4, VERIF_K=16),
-               dict(VERIF_ROUNDS=3, VERIF_YIELD=0, VERIF_PIPEYIELD=0, VERIF_COMMITTERS=8, VERIF_COMMITS=200, VERIF_PHASES=1,
-                    VERIF_READERS=2, VERIF_K=4)]  # > 4096 commits in one DB: the ring of record.SyncConcurrency slots wraps
+        var = [dict(VERIF_ROUNDS=25, VERIF_YIELD=30, VERIF_PIPEYIELD=0),
+               dict(VERIF_ROUNDS=25, VERIF_YIELD=20, VERIF_PIPEYIELD=25),
+               dict(VERIF_ROUNDS=15, VERIF_YIELD=50, VERIF_PIPEYIELD=60, VERIF_PROCS=2),
+               dict(VERIF_ROUNDS=15, VERIF_YIELD=0, VERIF_PIPEYIELD=0, VERIF_COMMITTERS=8, VERIF_READERS=4, VERIF_K=16),
+               # > 4096 commits in one DB lifetime: the ring of record.SyncConcurrency slots wraps (measured: 4620 commits,
+               # 17k events, validated by TLC in ~90 s)
+               dict(VERIF_ROUNDS=1, VERIF_YIELD=0, VERIF_PIPEYIELD=0, VERIF_COMMITTERS=8, VERIF_COMMITS=560, VERIF_PHASES=1,
+                    VERIF_READERS=2, VERIF_K=4)]
     return [dict(base, **v) for v in var]
 
 
